@@ -178,6 +178,9 @@ func TestC14(t *testing.T) {
 
 type C14ClientCase struct {
 	Reg C02Reg `json:"reg"`
+	// HandshakeMs, when set: the handshake is performed under a context with this deadline and the calls are made after
+	// the deadline has passed (with contexts of their own): the connection a handshake sets up outlives the handshake's context.
+	HandshakeMs int `json:"handshake_ms,omitempty"`
 }
 
 func collectClientView(reg C02Reg, cl mcp.Connector) map[string]string {
@@ -266,7 +269,21 @@ func execC14Clients(c C14ClientCase) *Failure {
 		if m != ModeStdio {
 			registerC02(RegistrarOf(srv), c.Reg, nil)
 		}
-		lc, err := w.ConnectLib(false, &ChildSpec{Role: "server", C02: &c.Reg})
+		var lc *libClient
+		var err error
+		if c.HandshakeMs > 0 {
+			t0 := time.Now()
+			lc, err = w.ConnectLibWithin(time.Duration(c.HandshakeMs)*time.Millisecond, false, &ChildSpec{Role: "server", C02: &c.Reg})
+			if err != nil {
+				// the handshake did not fit into its deadline (a loaded machine): nothing to compare
+				w.Close()
+				Inconclusive()
+				return nil
+			}
+			time.Sleep(time.Until(t0.Add(time.Duration(c.HandshakeMs+25) * time.Millisecond)))
+		} else {
+			lc, err = w.ConnectLib(false, &ChildSpec{Role: "server", C02: &c.Reg})
+		}
 		if err != nil {
 			w.Close()
 			return Failf("C14/connect", "%s: %v", m, err)
@@ -287,7 +304,13 @@ func execC14Clients(c C14ClientCase) *Failure {
 
 func TestC14Clients(t *testing.T) {
 	RunProp(t, Prop[C14ClientCase]{ID: "C14",
-		Gen:  func(t *rapid.T) C14ClientCase { return C14ClientCase{Reg: genC02(t).Reg} },
+		Gen: func(t *rapid.T) C14ClientCase {
+			c := C14ClientCase{Reg: genC02(t).Reg}
+			if rapid.IntRange(0, 7).Draw(t, "late") == 0 {
+				c.HandshakeMs = rapid.SampledFrom([]int{150, 300}).Draw(t, "handshakems")
+			}
+			return c
+		},
 		Exec: execC14Clients,
 		NT: func(c C14ClientCase) (bool, []string) {
 			nt, l := ntC02(C02Case{Reg: c.Reg})
